@@ -17,7 +17,7 @@ import (
 // environment deviation; any difference in the consensus transcript is a violation.
 func ReplicaExtra(prop, tier string, shard, of int) ExtraResult {
 	res := ExtraResult{Notes: map[string]interface{}{}, Exhaustive: true}
-	scripts := []*replica.Script{ScriptStorage(false), ScriptStaking(), ScriptTies()}
+	scripts := []*replica.Script{ScriptStorage(false), ScriptStaking(), ScriptTies(), ScriptSidRewards()}
 	if tier == "thorough" {
 		scripts = append(scripts, ScriptStorage(true))
 	}
@@ -67,9 +67,7 @@ func ReplicaExtra(prop, tier string, shard, of int) ExtraResult {
 					for j := 0; j < ntx; j += 3 {
 						one(replica.Deviation{Kind: "checktx", Pos: p, Arg: int64(j)})
 					}
-					for q := 0; q < 5; q++ {
-						one(replica.Deviation{Kind: "query", Pos: p, Arg: int64(q)})
-					}
+					one(replica.Deviation{Kind: "query", Pos: p, Arg: -1}) // the whole query menu at once
 					if tier == "thorough" {
 						for wd := int64(1); wd <= 8; wd++ {
 							one(replica.Deviation{Kind: "mapword", Pos: p, Arg: wd})
